@@ -160,8 +160,28 @@ TFDrop ==
                         /\ CompleteFiles(e, written, hType)
                         /\ e.shp = e.plainShp /\ e.shx = e.plainShx
 
+\* A long export (thousands of records) on destinations whose every flush fails, as one event of counts: the
+\* arithmetic of proofs/WriterCounters and the fault rule of C12, without the byte-level model.
+TLongFlush ==
+    /\ Ev("longflush") /\ UNCHANGED << wvars, observed >>
+    /\ LET e == Rec[l]
+           rec == 4 + e.w                        \* words per record
+       IN  \* a write during which a failure was delivered returned that failure; none was delivered otherwise
+           /\ \A k \in 1..Len(e.bad) : (e.bad[k].fired /\ e.bad[k].res = "io_injected")
+           /\ e.nOk + Len(e.bad) = e.n
+           \* finalize reports the failing flush, and completes once the destination works
+           /\ e.fin1.fired /\ e.fin1.res = "io_injected"
+           /\ ~e.fin2.fired /\ e.fin2.res = "ok"
+           /\ e.flushedShp /\ e.flushedShx
+           \* lengths and index entries for the records that were accepted
+           /\ e.declared = 50 + e.nOk * rec /\ e.shpLen = 2 * e.declared
+           /\ e.shxDeclared = 50 + 4 * e.nOk /\ e.shxLen = 2 * e.shxDeclared
+           /\ (e.nOk = e.n) => \A k \in 1..Len(e.entries) :
+                  /\ e.entries[k][2] = 50 + (e.entries[k][1] - 1) * rec
+                  /\ e.entries[k][3] = e.w
+
 Init == /\ l = 2 /\ WInit(TRUE) /\ observed = TRUE
-Next == TReset \/ TWrite \/ TFinalize \/ TDrop \/ TConsume \/ TConsumeRefused \/ TFWrite \/ TFFinalize \/ THeal \/ TFDrop
+Next == TReset \/ TWrite \/ TFinalize \/ TDrop \/ TConsume \/ TConsumeRefused \/ TLongFlush \/ TFWrite \/ TFFinalize \/ THeal \/ TFDrop
 Spec == Init /\ [][Next]_vars
 
 Accepted ==
